@@ -43,6 +43,11 @@ def grouped_ref(ref, group, insert):
 def flatten_case(ctx, shape, group, form='tuple', insert=None, reverse=False, lkinds=None, names=True):
     a, ref, attrs = _build(ctx, shape, lkinds=lkinds)
     dims = list(ref.dims)
+    # member axes carry their own metadata: "unflatten restores the member axes exactly"
+    for i, ax in enumerate(a.axes):
+        ax.attrs['units'] = 'u%d' % i
+    if ctx.operands:
+        ctx.operands[-1]['axis_attrs'] = [dict(ax.attrs) for ax in a.axes]
     nd = len(shape)
     listed = [dims[i] if names else i for i in group]
     if form == 'tuple':
@@ -85,6 +90,7 @@ def flatten_case(ctx, shape, group, form='tuple', insert=None, reverse=False, lk
     if ud is None or sorted(ud) != sorted(dims):
         return ctx.done(False, [ctx.observe(res), ctx.observe(u[1])])
     oks.append(same(ctx, u[1], ref.transpose([dims.index(d) for d in ud]), attrs=attrs))
+    oks.append(all(dict(u[1].axes[d].attrs) == {'units': 'u%d' % dims.index(d)} for d in dims))
     pos = list(res.dims).index(','.join(dims[i] for i in eff))
     oks.append(ud[pos:pos + len(eff)] == [dims[i] for i in eff])
     gname = ','.join(dims[i] for i in eff)
